@@ -134,6 +134,9 @@ pub fn program_shape(p: &crate::jxlgen::Program) -> String {
         p.animation.is_some() as u8
     );
     let mut flags = std::collections::BTreeSet::new();
+    if p.preview.is_some() {
+        flags.insert("preview");
+    }
     for f in &p.frames {
         let (cw, ch) = p.color_sample_dims(f);
         let gd = 128 << f.group_size_shift;
